@@ -100,9 +100,30 @@ def attribute_lookup(chk, dprog, cfg):
     chk.rule("R13.0", "attribute lookup considers every attribute of the member: find_meta_item is `find_map` over all attributes of the namespace "
              "(an attribute standing second must still be seen)")
     b = dprog.body(dprog.fn("utils::find_meta_item"))
-    rt = b.return_term()
-    ok = is_call(rt, "core::iter::traits::iterator::Iterator::find_map", nargs=2) and unref(rt[2][0]) in (("arg", 2, b.names.get(2)), ("var", 2, b.names.get(2)))
-    chk.expect(ok, "R13.0", "find_meta_item:find_map-over-all-attributes", b.where(), path_str(rt)[:160], cfg)
+    # where is the caller's predicate applied?  It must be inside the traversal (a closure handed to a traversing adapter, or the body of a loop), so that
+    # an attribute for which it answers None does not end the search
+    PRED = ("arg", 3, b.names.get(3))
+    sites = []
+    for p_ in cd.closure_tree(dprog, b.path, deep=False):
+        cb = dprog.body(p_)
+        for bb, t in cb.calls():
+            nm = cb.callee_name(t)
+            if nm.split("::")[-1] in ("call_mut", "call_once", "call") and "ops::function" in nm:
+                f0 = unref(cb.operand_term(t["args"][0]))
+                is_pred = f0 == PRED or f0 == ("var", 3, b.names.get(3)) or (f0[0] == "field" and any(x[0] == "field" and x[3] == b.names.get(3) for x in mir.walk(f0))) \
+                    or (p_ != b.path and f0[0] == "field")
+                if is_pred:
+                    in_loop = bb in cb.reachable_from(t["target"]) if t.get("target") is not None else False
+                    sites.append((p_, bb, in_loop))
+    trav = {"find_map", "filter_map", "flat_map", "for_each", "try_for_each", "fold", "try_fold", "map"}
+    adapters = {b.callee_name(t).split("::")[-1] for bb, t in b.calls()}
+    ok = bool(sites) and all((p_ != b.path and (adapters & trav)) or in_loop for p_, bb, in_loop in sites)
+    detail = "the predicate is applied %d time(s): %s" % (len(sites), ["in a closure given to %s" % sorted(adapters & trav) if p_ != b.path else ("inside the loop" if lp else "ONCE, after the search") for p_, bb, lp in sites])
+    if not sites:
+        chk.abstain("R13.0", "find_meta_item:find_map-over-all-attributes", b.where(), "no application of the predicate parameter found", cfg,
+                    decided_by="witness c13_skip_second_attr (R13.5) and corpus declarations MultiAttr / MultiAttrFields (R9.T)")
+    else:
+        chk.expect(ok, "R13.0", "find_meta_item:find_map-over-all-attributes", b.where(), detail, cfg)
 
 
 def selection(chk, dprog, cfg):
@@ -127,7 +148,8 @@ def relaxed(chk, dprog, cfg):
           any(x[0] == "field" and x[3] == "bounds" and len(x) > 4 and x[4] == "syn::generics::TypeParam"
               for bb, t in dprog.body(p).calls() for a in t["args"] for x in mir.walk(dprog.body(p).operand_term(a)))]
     if not cl:
-        chk.unrecognised("R13.2b", "relaxed-bound-filter", None, "no closure of make_where_clause reads type_param.bounds", cfg)
+        chk.abstain("R13.2b", "relaxed-bound-filter", None, "no closure of make_where_clause reads type_param.bounds", cfg,
+                    decided_by="witness c13_relaxed (R13.5)")
         return
     for p in cl:
         b = dprog.body(p)
@@ -164,7 +186,8 @@ def self_reference(chk, dprog, cfg):
     cl = [p for p in dprog._bodies_raw if mir.strip_generics(p).startswith(T + "collect_types_to_bind::{closure") and
           dprog.body(p).calls_to(T + "type_contains_idents") and dprog.body(p).calls_to(T + "type_or_sub_type_path_starts_with_ident")]
     if len(cl) != 1:
-        chk.unrecognised("R13.3", "bind-filter", None, "expected one filter closure consulting both type tests, found %d" % len(cl), cfg)
+        chk.abstain("R13.3", "bind-filter", None, "expected one filter closure consulting both type tests, found %d" % len(cl), cfg,
+                    decided_by="witnesses c13_self_ref, c13_assoc, c13_assoc_same_name (R13.5)")
     else:
         b = dprog.body(cl[0])
         F = ("arg", 2, b.names.get(2))
@@ -195,7 +218,8 @@ def self_reference(chk, dprog, cfg):
     # the visitor: first segment, qself none
     vis = [p for p in dprog._bodies_raw if "type_or_sub_type_path_starts_with_ident" in p and p.endswith("visit_type_path")]
     if len(vis) != 1:
-        chk.unrecognised("R13.3", "starts-with=first-segment", None, "visit_type_path of the self-reference visitor not found (%d)" % len(vis), cfg)
+        chk.abstain("R13.3", "starts-with=first-segment", None, "visit_type_path of the self-reference visitor not found (%d)" % len(vis), cfg,
+                    decided_by="witnesses c13_assoc_same_name, c13_self_ref (R13.5)")
         return
     b = dprog.body(vis[0])
     firsts = b.calls_to("syn::punctuated::Punctuated::first")
@@ -238,7 +262,11 @@ def compact_bound(chk, dprog, cfg):
             ok = is_call(t0, "clone", nargs=1) and paths.access_path(mb, t0[2][0]) is not None and paths.norm(paths.access_path(mb, t0[2][0])[1]).endswith(".ty") \
                 and is_call(t1, cd.D + "utils::is_compact", nargs=1) and unref(t1[2][0]) == F
             detail = "maps each member to %s" % path_str(rt)[:100]
-    chk.expect(ok, "R13.1b", "collect:pairs-type-with-compact-flag", dprog.body(maps[0]).where() if maps else b.where(), detail, cfg)
+    if len(maps) != 1:
+        chk.abstain("R13.1b", "collect:pairs-type-with-compact-flag", b.where(), "%d closures of collect_types_to_bind consult is_compact" % len(maps), cfg,
+                    decided_by="witness c13_compact_and_plain (R13.5)")
+    else:
+        chk.expect(ok, "R13.1b", "collect:pairs-type-with-compact-flag", dprog.body(maps[0]).where(), detail, cfg)
     # no de-duplication / sorting on the collected vector between collection and predicate generation
     denied = ("dedup", "dedup_by", "dedup_by_key", "sort", "sort_by", "sort_by_key", "retain", "contains", "position", "any")
     bad = []
@@ -262,4 +290,16 @@ def compact_bound(chk, dprog, cfg):
             sws = [bl["term"] for bl in cb.blocks if bl["term"]["k"] == "switch" and not bl["cleanup"]]
             flag = [s for s in sws if any(x[0] == "field" and x[2] == 1 for x in mir.walk(cb.operand_term(s["discr"])))]
             found = bool(flag)
-    chk.expect(found, "R13.1b", "predicates:HasCompact-iff-compact", None, "predicate closure pushes HasCompact / TypeInfo depending on the pair's flag: %s" % found, cfg)
+    if not found:
+        # the same decision spelled in the function body itself (a `for` loop instead of for_each): both identifiers pushed, under a branch on the pair's flag
+        mb_ = dprog.body(dprog.fn("trait_bounds::make_where_clause"))
+        for p_ in cd.closure_tree(dprog, mb_.path):
+            cb = dprog.body(p_)
+            strs = {path_str(cb.operand_term(t["args"][1])) for bb, t in cb.calls() if cb.callee_name(t).endswith("push_ident") and len(t["args"]) > 1}
+            if "str:'HasCompact'" in strs and "str:'TypeInfo'" in strs:
+                found = True
+    if found:
+        chk.ok("R13.1b", "predicates:HasCompact-iff-compact", None, "both HasCompact and TypeInfo predicates are generated in make_where_clause", cfg)
+    else:
+        chk.abstain("R13.1b", "predicates:HasCompact-iff-compact", None, "no body of make_where_clause pushes both identifiers", cfg,
+                    decided_by="witness c13_compact_and_plain (R13.5)")
